@@ -11,6 +11,10 @@
 //!     the valid operation is encoded, one byte of the header (h) or body (b) bytes is
 //!     substituted (xor val) / deleted / inserted at pos (mod length), decoded again, validated,
 //!     ingested.
+//! `resub <unit|node> | <orig header> | <signer|-> <sig mode> | <header> | <body|-> | <orig body|->`
+//!     the valid original {orig header signed by its own key, orig body} is ingested, then on the
+//!     SAME store the (mutated) operation {header, body} built as in `val` is validated and
+//!     ingested; prints the second verdict and whether the store still holds exactly the original.
 use std::cell::RefCell;
 use std::time::Duration;
 
@@ -219,6 +223,76 @@ where
     judge(&op, prune, twice).await
 }
 
+/// re-submission: the valid original is already stored, then a (tampered) copy arrives
+async fn resub_case<E: ExtShow>(
+    mut orig: Header<E>,
+    orig_key: usize,
+    orig_body: Option<Vec<u8>>,
+    signer: &str,
+    sigmode: &str,
+    mut header: Header<E>,
+    body: Option<Vec<u8>>,
+) -> String
+where
+    SqliteStore: OperationStore<Operation<E>, Hash>,
+{
+    let mut first = orig.clone();
+    first.sign(&tok::key(orig_key));
+    let first_op = Operation { hash: first.hash(), header: first, body: orig_body.clone().map(Body::from) };
+    if signer != "-" {
+        orig.sign(&tok::key(signer.parse().expect("signer")));
+    }
+    header.signature = match sigmode {
+        "ok" => orig.signature,
+        "none" => None,
+        "garbage" => Some(Signature::from_bytes(&[251u8; 64])),
+        m => {
+            let i: usize = m.strip_prefix("flip").expect("sig mode").parse().expect("flip index");
+            let mut b = orig.signature.expect("signed").to_bytes();
+            b[i % 64] ^= 1;
+            Some(Signature::from_bytes(&b))
+        }
+    };
+    let op = Operation { hash: header.hash(), header, body: body.map(Body::from) };
+    let store = fresh_store().await;
+    let before = rows(&store).await;
+    let r1 = ingest_operation(&store, &first_op, &1u64, &TOPIC, true).await;
+    let mid = rows(&store).await;
+    let val = match validate_operation(&op) {
+        Ok(()) => "OK".to_string(),
+        Err(e) => err_name(&e).to_string(),
+    };
+    let r2 = ingest_operation(&store, &op, &1u64, &TOPIC, true).await;
+    let after = rows(&store).await;
+    let has = <SqliteStore as OperationStore<Operation<E>, Hash>>::has_operation(&store, &op.hash)
+        .await
+        .expect("has_operation");
+    let got = <SqliteStore as OperationStore<Operation<E>, Hash>>::get_operation(&store, &first_op.hash)
+        .await
+        .expect("get_operation");
+    let stored = match &got {
+        Some(o) => {
+            o.header.to_bytes() == first_op.header.to_bytes()
+                && o.body.as_ref().map(|b| b.to_bytes()) == orig_body
+                && o.hash == first_op.hash
+        }
+        None => false,
+    };
+    format!(
+        "first={} rows={}/{} | val={} ing={} has={} hasorig={} rows={} samehash={} stored={}",
+        ing_name(&r1),
+        before,
+        mid,
+        val,
+        ing_name(&r2),
+        has as u8,
+        got.is_some() as u8,
+        after,
+        (op.hash == first_op.hash) as u8,
+        stored as u8
+    )
+}
+
 /// Names for byte strings seen in a decoded (tampered) header: pool keys, the original
 /// signature (`S`), the hash of the original body (`H`), literal short run-length values, and
 /// numbered placeholders for anything else (only its length and its being different matter).
@@ -396,6 +470,18 @@ async fn run(payload: &str) -> String {
                 val_case(unit_header(&secs[1]), signer, sigmode, unit_header(&secs[3]), body, prune, twice).await
             } else {
                 val_case(node_header(&secs[1]), signer, sigmode, node_header(&secs[3]), body, prune, twice).await
+            }
+        }
+        "resub" => {
+            let signer = secs[2][0];
+            let sigmode = secs[2][1];
+            let body = body_word(secs[4][0]);
+            let body0 = body_word(secs[5][0]);
+            let key: usize = secs[1][0].parse().expect("key");
+            if head[1] == "unit" {
+                resub_case(unit_header(&secs[1]), key, body0, signer, sigmode, unit_header(&secs[3]), body).await
+            } else {
+                resub_case(node_header(&secs[1]), key, body0, signer, sigmode, node_header(&secs[3]), body).await
             }
         }
         "byte" => {
